@@ -116,28 +116,36 @@ def r43_key_typestate(ctx):
         cfg = cfg_of(f)
         guards = _fill_guard_nodes(ctx, f)
         gnodes = [cfg.of_stmt[g] for g in guards]
-        for k, node in _literal_key_loads(f, ('self',)):
+        units = [(f, None)] + [(g, g) for g in f.children.values()]
+        for g_, nested in units:
+          for k, node in _literal_key_loads(g_, ('self',)):
             n += 1
             what = "renderer loads record key '%s' only when it is certainly there" % k
             if k in init_keys:
-                ctx.ok(R, node, f, what, 'stored on every path of ElectionRecord.__init__', nontrivial=False)
+                ctx.ok(R, node, g_, what, 'stored on every path of ElectionRecord.__init__', nontrivial=False)
                 continue
-            st = node
-            while not isinstance(st, ast.stmt):
-                st = st.parent
-            cn = None
-            s2 = st
-            while s2 is not None and s2 not in cfg.of_stmt:
-                s2 = getattr(s2, 'parent', None)
-            cn = cfg.of_stmt.get(s2)
-            need(cn is not None, 'no CFG node for %s' % repo.loc(node))
             if k not in fill_keys:
-                ctx.bad(R, node, f, what, "key '%s' is not stored on every path of _fill() (and not by __init__): "
-                                          "unguarded subscript can raise KeyError" % k)
+                ctx.bad(R, node, g_, what, "key '%s' is not stored on every path of _fill() (and not by __init__): "
+                                           "unguarded subscript can raise KeyError" % k)
                 continue
-            # the establishing guard `if not self.filled: self._fill()` dominates the load
-            dom = any(cn not in cfg.reach([cfg.entry], avoid=[g], include_start=True) for g in gnodes)
-            ctx.check(dom, R, node, f, what,
+            # where the load happens in the renderer: its own statement, or (a load inside a nested helper) every statement
+            # of the renderer that mentions the helper
+            if nested is None:
+                places = [node]
+            else:
+                places = [x for x in f.own_nodes() if isinstance(x, ast.Name) and x.id == nested.name and isinstance(x.ctx, ast.Load)]
+                need(places, 'nested helper %s of %s is never used' % (nested.name, f.qualname))
+            dom = True
+            for pl in places:
+                s2 = pl
+                while s2 is not None and s2 not in cfg.of_stmt:
+                    s2 = getattr(s2, 'parent', None)
+                cn = cfg.of_stmt.get(s2)
+                need(cn is not None, 'no CFG node for %s' % repo.loc(pl))
+                # the establishing guard `if not self.filled: self._fill()` dominates the load
+                if not any(cn not in cfg.reach([cfg.entry], avoid=[g], include_start=True) for g in gnodes):
+                    dom = False
+            ctx.check(dom, R, node, g_, what,
                       "`if not self.filled: self._fill()` dominates the load and _fill() stores '%s' on every path" % k,
                       "'%s' is stored only by _fill(), which runs at the first begin/count/round action; %s() is public "
                       "and can be called on an interrupted count before that action: KeyError" % (k, name))
@@ -158,7 +166,10 @@ def r43_key_typestate(ctx):
         for c in f.own_nodes():
             if isinstance(c, ast.Call) and isinstance(c.func, ast.Attribute) and c.func.attr in ('report', 'dump') \
                     and ctx.canon(c.func.value, f) == 'E.rule':
-                okc = f.owner_class is rec and f.name in ('report', 'dump')
+                top_ = f
+                while top_.parent is not None:
+                    top_ = top_.parent          # a helper nested in a renderer runs only from it
+                okc = top_.owner_class is rec and top_.name in ('report', 'dump')
                 ctx.check(okc, R, c, f, 'rule rendering hooks are invoked only by ElectionRecord.report/dump',
                           'call site inside ElectionRecord.%s' % f.name,
                           'rule hook %s() invoked from %s, outside the guarded renderers' % (c.func.attr, f.qualname),
@@ -460,9 +471,31 @@ def r46_interrupt_plumbing(ctx):
               'the interruption markers of report/dump/json differ')
     # the marker is a 'log' action: ElectionRecord.action appends log actions before touching anything else
     act = repo.func('droop.record.ElectionRecord.action')
-    first_if = [s for s in act.node.body if isinstance(s, ast.If) and unparse(s.test) == "tag == 'log'"]
-    okl = bool(first_if) and isinstance(first_if[0].body[-1], ast.Return) and \
-        any('append' in unparse(s) for s in first_if[0].body)
+    # (decided on the CFG: from the edge on which the tag is 'log' the function reaches its exit, appends the action on the way and
+    # neither fills the header nor takes the candidate snapshot - however the branch is spelled: early return, if/else, != test)
+    acfg = cfg_of(act)
+    tagp = act.params[1] if len(act.params) > 1 else 'tag'
+    first_if = []
+    log_edge = None
+    for s_ in act.own_nodes():
+        if isinstance(s_, ast.If) and isinstance(s_.test, ast.Compare) and len(s_.test.ops) == 1 and isinstance(s_.test.left, ast.Name) \
+                and s_.test.left.id == tagp and const_str(s_.test.comparators[0]) == 'log' and isinstance(s_.test.ops[0], (ast.Eq, ast.NotEq)):
+            first_if.append(s_)
+            log_edge = isinstance(s_.test.ops[0], ast.Eq)
+    okl = False
+    if len(first_if) == 1 and first_if[0] in acfg.of_stmt:
+        tn = acfg.of_stmt[first_if[0]]
+        starts = [t_ for t_, lab_ in tn.succ if lab_ is log_edge]
+        reach = acfg.reach(starts, include_start=True) if starts else set()
+        # when the branch is empty (`if tag != 'log': <everything else>`) the edge leads straight on
+        def _txt(x):
+            return unparse(x.ast) if x.kind == 'stmt' else (unparse(x.ast.test) if x.kind == 'test' else (unparse(x.ast.iter) if x.kind == 'iter' else ''))
+        appends = any(x.kind == 'stmt' and "self['actions'].append" in _txt(x) for x in reach)
+        heavy = any(('_fill' in _txt(x) or 'cstate' in _txt(x) or 'self.filled' in _txt(x)) for x in reach if x.kind in ('stmt', 'test', 'iter'))
+        # the append must also not be preceded (before the test) by the header / snapshot work
+        before = acfg.reach([acfg.entry], avoid=[tn], include_start=True)
+        heavy_before = any(('_fill' in _txt(x) or 'cstate' in _txt(x)) for x in before if x.kind in ('stmt', 'test', 'iter'))
+        okl = appends and not heavy and not heavy_before
     ctx.check(okl, R, first_if[0] if first_if else act.node, act, "a 'log' action needs no header and no candidate snapshot",
               "`if tag == 'log': self['actions'].append(A); return` precedes the _fill/cstate part",
               "the 'log' fast path of ElectionRecord.action is gone: logging the interruption marker may need an unfilled header")
